@@ -225,3 +225,34 @@ Definition agree_pred (has_fallback : bool) (o_primary : ilist) (o_backup : opti
           | None => match snd o_primary with Some s => negb (existsb is_nan s) | None => false end
           end
   else ilist_eqb o_primary o_pred.
+
+(* the fallback model of the same run was asked about exactly the candidate items *)
+Definition agree_backup_items (o_cand : list Z) (o_backup : option ilist) : bool :=
+  match o_backup with Some b => listZ_eqb (fst b) o_cand | None => true end.
+
+(* ---- the life of one pipeline object: train() and queries in any order ----
+   Every trainable component of the standard pipelines replaces what it holds on train() (history lookup:
+   the interaction matrix; candidate selector: the item vocabulary); answering a query changes nothing.
+   So the object's state is the data set of the latest train(). *)
+Inductive event :=
+| Train (ds : dataset)
+| Ask (i : qinput) (supplied : option (list Z)).
+Definition pstate := option dataset.                      (* None: never trained *)
+Definition step (st : pstate) (e : event) : pstate :=
+  match e with Train ds => Some ds | Ask _ _ => st end.
+Definition after (evs : list event) : pstate := fold_left step evs None.
+Definition is_ask (e : event) : bool := match e with Ask _ _ => true | Train _ => false end.
+(* what a recommendation / prediction request answers after a given life *)
+Definition rec_after (sc : scorer) (evs : list event) (i : qinput) (supplied : option (list Z))
+    (config_n run_n : pyv) : option (result (scored * bool)) :=
+  option_map (fun ds => rec_pipeline sc ds i supplied config_n run_n) (after evs).
+Definition pred_after (sc : scorer) (fb : option scorer) (evs : list event) (i : qinput)
+    (supplied : option (list Z)) : option ilist :=
+  option_map (fun ds => pred_pipeline sc fb ds i supplied) (after evs).
+(* correspondence: the observed front of a run made after the events `evs` *)
+Definition agree_front_after (evs : list event) (i : qinput) (supplied : option (list Z))
+    (o_hist : option (option (list Z))) (o_cand : list Z) (o_scored_ids : list Z) : bool :=
+  match after evs with
+  | Some ds => agree_front ds i supplied o_hist o_cand o_scored_ids
+  | None => false
+  end.
